@@ -80,7 +80,27 @@ pub fn check(tape: &[u32]) -> CheckResult {
         }
         _ => {}
     }
-    let plan = build_plan(&mut t);
+    // now and then a large map (150-200 tiles a side, ids spread over 1234 one-pixel tiles) whose stored tile data is
+    // far larger than any decoder's internal buffers
+    let big_map = s.fmt == Fmt::Rgba && t.chance(1, 150);
+    if big_map {
+        let (mw, mh) = (150 + t.below(50) as u16, 150 + t.below(50) as u16);
+        let mut r = crate::encode::Rng(t.raw64());
+        let count = 1234u32;
+        let px: Vec<u8> = (0..count as usize * 4).map(|i| if i < 4 { 0 } else if i % 4 == 3 { 255 } else { r.next() as u8 }).collect();
+        s.width = mw.max(mh);
+        s.height = s.width;
+        s.tilesets.push(Tileset { id: 77, flags: 6, count, tw: 1, th: 1, base_index: 1, name: "many".into(), ext: (0, 0), pixels: px });
+        let li = s.layers.len();
+        s.layers.push(Layer { flags: 3, kind: LayerKind::Tilemap { tileset: 77 }, level: 0, blend: 0, opacity: 255, name: "big map".into(), user_data: None });
+        let tiles: Vec<u32> = (0..mw as usize * mh as usize).map(|_| (r.next() % count as u64) as u32).collect();
+        s.frames[0].cels.push(Cel { layer: li as u16, x: 0, y: 0, opacity: 255, content: CelContent::Tilemap { w: mw, h: mh, bits: 32, masks: [0x1fffffff, 0x20000000, 0x40000000, 0x80000000], tiles }, user_data: None });
+    }
+    let mut plan = build_plan(&mut t);
+    if big_map {
+        plan.compress = 1;
+        plan.zlevel = 10;
+    }
     let enc = encode(&s, &plan);
     let detail = |w: serde_json::Value| json!({"model": super::c01::summarize(&s), "input_hex": if enc.bytes.len() < 8000 { hex(&enc.bytes) } else { String::new() }, "where": w});
     let f = AsepriteFile::read(&enc.bytes[..]).map_err(|e| Failure::new("load-error", format!("well-formed file failed to load: {}", e)).with(detail(json!(null))))?;
